@@ -26,6 +26,16 @@ struct Shared {
 	gates: Mutex<HashMap<String, Arc<Notify>>>,
 	started: Mutex<Vec<String>>,
 	finished: Mutex<Vec<String>>,
+	/// handler futures that are gone: completed, or dropped because their request was abandoned
+	ended: Mutex<Vec<String>>,
+}
+
+/// Recorded when the `hold` handler's future goes away, however that happens.
+struct Ended(Arc<Shared>, String);
+impl Drop for Ended {
+	fn drop(&mut self) {
+		self.0.ended.lock().unwrap().push(self.1.clone());
+	}
 }
 
 fn module(sh: Arc<Shared>) -> RpcModule<Arc<Shared>> {
@@ -46,6 +56,7 @@ fn module(sh: Arc<Shared>) -> RpcModule<Arc<Shared>> {
 		}
 		let gate = sh.gates.lock().unwrap().entry(tag.clone()).or_insert_with(|| Arc::new(Notify::new())).clone();
 		sh.started.lock().unwrap().push(tag.clone());
+		let _ended = Ended((*sh).clone(), tag.clone());
 		gate.notified().await;
 		sh.finished.lock().unwrap().push(tag.clone());
 		tag
@@ -351,6 +362,12 @@ async fn run_spec(spec: &Spec) -> Out {
 				} else {
 					h.task.abort();
 					let _ = h.task.await;
+					// an HTTP request counts while it is processed: once it is abandoned and its slot is free again, it is not
+					// processed any more either - its handler is gone, not running on beside whoever gets the slot next
+					settle(if matches!(op, Op::H2Abort(_)) { 20 } else { 2 }).await;
+					if !sh.ended.lock().unwrap().contains(&h.tag) {
+						bad!(format!("abandoned-call-still-running/{}", op.kind()), "the request of call {} was abandoned and its slot released, yet its handler is still running ({} of {} slots in use by the model)", h.tag, served - 1, spec.max);
+					}
 				}
 				served -= 1;
 				out.endings += 1;
@@ -1422,7 +1439,7 @@ async fn lowlevel_case(seed: u64) -> Out {
 /// (a) runs in REAL time (the server measures inactivity with `std::time::Instant`): ping interval 40 ms, inactivity limit
 /// 120 ms, one failure; the peer is a `FrameWs` that never reads, so no ping is answered. The guard is polled until it shows
 /// the slot free; only a slot that is still taken 10 s after the limit counts as not returned.
-async fn server_closes_case(seed: u64, low_level: bool) -> Out {
+async fn server_closes_case(seed: u64, low_level: bool, protocol_violation: bool) -> Out {
 	let mut out = Out::default();
 	let mut r = Rng::new(seed);
 	let max = 1 + r.below(2) as usize;
@@ -1432,9 +1449,17 @@ async fn server_closes_case(seed: u64, low_level: bool) -> Out {
 		($sig:expr, $($arg:tt)*) => { out.violations.push(($sig.to_string(), format!($($arg)*))) };
 	}
 	let occ = |g: &ConnectionGuard| g.max_connections().saturating_sub(g.available_connections());
-	let how = if low_level { "connection-future-dropped" } else { "peer-silent-past-the-inactivity-limit" };
+	// (c) the peer breaks the WebSocket protocol (a final continuation frame although no fragmented message is open), the
+	// server gives the connection up with its close frame - and the peer neither reads it nor hangs up
+	let how = if protocol_violation {
+		if low_level { "protocol-violation-then-silent-peer:ws-connect" } else { "protocol-violation-then-silent-peer" }
+	} else if low_level {
+		"connection-future-dropped"
+	} else {
+		"peer-silent-past-the-inactivity-limit"
+	};
 	let ping = jsonrpsee_server::PingConfig::new().ping_interval(Duration::from_millis(40)).inactive_limit(Duration::from_millis(120)).max_failures(1);
-	let cfg = ServerConfig::builder().max_connections(max as u32).enable_ws_ping(ping).build();
+	let cfg = if protocol_violation { ServerConfig::builder().max_connections(max as u32).build() } else { ServerConfig::builder().max_connections(max as u32).enable_ws_ping(ping).build() };
 	let mut low = jrv::lowlevel::LowLevel::new(ServerConfig::default(), module(sh.clone()));
 	low.guard = ConnectionGuard::new(max);
 	let srv = MemServer::new(cfg, module(sh.clone()));
@@ -1487,7 +1512,13 @@ async fn server_closes_case(seed: u64, low_level: bool) -> Out {
 	}
 	// the server ends the connections
 	let mut during = max;
-	if low_level {
+	if protocol_violation {
+		for ws in wss.iter_mut() {
+			ws.send_frame(true, 0, b"tail of nothing").await;
+		}
+		settle(50).await;
+		during = occ(&guard);
+	} else if low_level {
 		low.drop_ws_sessions();
 		settle(20).await;
 		during = occ(&guard);
@@ -1508,7 +1539,7 @@ async fn server_closes_case(seed: u64, low_level: bool) -> Out {
 			format!("occupancy-wrong/slot-not-returned/after-{how}{}", if mid_call { "-mid-call" } else { "" }),
 			"the server ended {max} WebSocket connection(s) ({how}{}), the guard still shows {during} of {max} in use{}",
 			if mid_call { ", a call still in its handler on each" } else { "" },
-			if low_level { "" } else { " 10 s later" }
+			if low_level || protocol_violation { "" } else { " 10 s later" }
 		);
 	}
 	// a newcomer is admitted
@@ -1699,12 +1730,12 @@ fn main() {
 			_ => (0..ctx.tier.pick(200u64, 10_000)).map(|i| Rng::fork(ctx.seed ^ 0x5c10, i).next_u64()).collect(),
 		};
 		// (a) in real time on one multi-thread runtime, 16 cases at a time; (b) in virtual time
-		let (real, virt): (Vec<u64>, Vec<u64>) = seeds.into_iter().partition(|s| s % 2 == 0);
-		let mut res: Vec<(u64, Out)> = run_parallel(virt, |_, s| (s, block_on_virtual(server_closes_case(s, true))));
+		let (real, virt): (Vec<u64>, Vec<u64>) = seeds.into_iter().partition(|s| s % 3 == 0);
+		let mut res: Vec<(u64, Out)> = run_parallel(virt, |_, s| (s, block_on_virtual(server_closes_case(s, s % 2 == 0, s % 3 == 1))));
 		res.extend(block_on_stress(8, async {
 			let mut all = Vec::new();
 			for chunk in real.chunks(16) {
-				let hs: Vec<_> = chunk.iter().map(|s| { let s = *s; tokio::spawn(async move { (s, server_closes_case(s, false).await) }) }).collect();
+				let hs: Vec<_> = chunk.iter().map(|s| { let s = *s; tokio::spawn(async move { (s, server_closes_case(s, false, false).await) }) }).collect();
 				for h in hs {
 					if let Ok(x) = h.await {
 						all.push(x);
